@@ -5,6 +5,7 @@ import ChaiVerif.Model.Json
 import ChaiVerif.Gen.Json
 import ChaiVerif.Lemmas.JsonLeaves
 import ChaiVerif.Lemmas.JsonRoundtrip
+import ChaiVerif.Lemmas.JsonIdem
 namespace ChaiVerif.C18
 open ChaiVerif
 
@@ -46,9 +47,8 @@ theorem parse_depth_bounded (s : List Nat) (f off d : Nat) (h : d ≥ maxDepth) 
     scanner, the array loop with its `, ` separators, the object loop with indentation, `"key" : value`, `,\n` and the closing brace,
     `operator[]` on the flat map, the depth guard and the fuel `jsonLoad` gives it — against the printer.
     `plainJ F j` says that `j` is such a value and nests less than `F` deep.
-    PARTIAL with respect to the property: floating-point values are outside any exact statement (the property itself allows 1e-6) and
-    the idempotence clause for arbitrary accepted TEXTS (from_json ∘ to_json ∘ from_json = from_json) is decided by the
-    correspondence check only. -/
+    PARTIAL with respect to the property: floating-point values are outside any exact statement (the property itself allows 1e-6).
+    The idempotence clause for arbitrary accepted TEXTS is `text_idempotent_partial` below. -/
 theorem value_roundtrip_partial (F : Nat) (j : J) (d : Nat) (hpl : JRT.plainJ F j = true) (hF : F ≤ maxDepth) :
     jsonLoad (dumpJ F j d) = .ok j := by
   obtain ⟨off, hp, _⟩ := JRT.P_all F j d [] [] [] 0 (4 * (dumpJ F j d).length + 8) hpl (by omega)
@@ -60,5 +60,26 @@ theorem value_roundtrip_partial (F : Nat) (j : J) (d : Nat) (hpl : JRT.plainJ F 
 /-- non-vacuity: a nested value with every covered kind satisfies the hypothesis -/
 example : JRT.plainJ 4 (.arr [.int (-7), .str [34, 92, 10], .arr [], .obj [([97], .bool true), ([98, 34], .obj []), ([], .arr [.null, .int 0])]]) = true := by
   decide
+
+/-! ### accepted texts -/
+
+/-- Whatever text the parser accepts, the value it returns nests no deeper than the depth guard allows and no object in it has a key
+    twice (`operator[]` overwrites) — so, unless it contains a floating-point token or an integer on the edge of the 64-bit range, it is
+    one of the values `value_roundtrip_partial` covers.  Induction over the whole parser (every branch of `parse_next`, the array loop, the
+    object loop). -/
+theorem accepted_text_gives_plain_value (t : List Nat) (v : J) (h : jsonLoad t = .ok v) (hx : JRT.exactJ maxDepth v = true) :
+    JRT.plainJ maxDepth v = true := JRT.load_plain t v h hx
+
+/-- **from_json(to_json(from_json(t))) = from_json(t)** for EVERY text `t` the parser accepts (any bytes, any white space, any nesting
+    the depth guard lets through, repeated keys, escapes) whose value holds no floating-point number and no integer equal to INT64_MIN:
+    printing the parsed value and parsing the print returns the parsed value.
+    PARTIAL with respect to the property only in the floating-point clause (the property allows 1e-6 there; decided by correspondence). -/
+theorem text_idempotent_partial (t : List Nat) (v : J) (h : jsonLoad t = .ok v) (hx : JRT.exactJ maxDepth v = true) :
+    jsonLoad (dumpJ maxDepth v 0) = .ok v :=
+  value_roundtrip_partial maxDepth v 0 (accepted_text_gives_plain_value t v h hx) (Nat.le_refl _)
+
+/-- non-vacuity: a text with odd spacing, a repeated key and an escape is accepted, its value is exact, and the repeated key was merged -/
+example : jsonLoad [32, 123, 34, 97, 34, 58, 91, 49, 44, 32, 45, 50, 93, 44, 10, 34, 97, 34, 32, 58, 34, 92, 110, 34, 125] = .ok (.obj [([97], .str [10])]) ∧
+    JRT.exactJ maxDepth (.obj [([97], .str [10])]) = true := ⟨by rfl, by decide⟩
 
 end ChaiVerif.C18
